@@ -2,6 +2,7 @@ package checks
 
 import (
 	"fmt"
+	"strings"
 	"sync/atomic"
 	"time"
 
@@ -50,6 +51,9 @@ func c04World() *ref.World {
 	g.MS = map[string]string{"a": "gm"}
 	w.Objs["G"] = g
 	w.Objs["H"] = facts.New()
+	big := facts.New() // numbers beyond the int64 range: an unsigned value above MaxInt64, a real of 1e19
+	big.U, big.F = 1<<63+1024, 1.0e19
+	w.Objs["Big"] = big
 	w.Vars["N"] = int64(10)
 	w.Vars["Name"] = "nm"
 	w.JSON["J"] = map[string]interface{}{"n": 10.0, "s": "js", "b": true, "o": map[string]interface{}{"n": 11.0}, "a": []interface{}{10.0, 11.0}}
@@ -64,6 +68,7 @@ var c04Dests = []string{
 }
 
 var c04Sources = []string{
+	"Big.U", "Big.F", "Big.U / 2", "Big.F * 1.5",
 	"0", "1", "7", "-3", "100", "127", "255", "2.0", "2.5", "-1.5", `"x"`, `""`, `"a\"b"`, "true", "false",
 	"G.I", "G.I8", "G.I16", "G.I32", "G.In", "G.U", "G.U8", "G.U16", "G.U32", "G.Un", "G.F", "G.F32", "G.S", "G.B", "G.T",
 	"G.Add(2, 3)", `G.Cat("a", "b")`, "G.IsPos(1)", "G.Arr[1]", "G.P.V", `G.M["a"]`, "G.SArr[0]", `G.MS["a"]`, "G.P.S",
@@ -134,6 +139,9 @@ func C04(rep *ev.Reporter, tier string) {
 			for _, op := range []string{"=", "+=", "-=", "*=", "/="} {
 				for _, s := range c04Sources {
 					a := fmt.Sprintf("%s %s %s", d, op, s)
+					if strings.HasPrefix(d, "J") && strings.HasPrefix(s, "Big.U") {
+						continue // how a JSON member holds an unsigned Go value above MaxInt64 is not specified (and rendered differently by the two dumps)
+					}
 					if !okModel([]string{a}) {
 						continue
 					}
